@@ -98,8 +98,29 @@ type plScenario struct {
 	Hooks      string // which verif yield points park: "" = pack.computed + barrier.signal, "all" = every hook
 	Bound      *int // deviation bound override for this scenario
 	DelayPartitionOnTarget bool // downstream partition id appears only when the create-partition event is applied
+	WatchMapping bool // record the manager's channel assignment at every scheduling point (C16)
 	SlowDropOnTarget bool // the downstream has not applied a drop request yet when it is asked again: it still lists the dropped object
 	ParkTargetInStart bool // the downstream lookups made by StartReadCollection are scheduling points (check-then-act window of the duplicate-start handling)
+}
+
+// physChannels lists the physical channel names the scenario's collections live on (source side, downstream side).
+func (sc *plScenario) physChannels() (srcs, tgts []string) {
+	ss, ts := map[string]bool{}, map[string]bool{}
+	for _, c := range sc.Colls {
+		for _, sh := range c.Shards {
+			ss[funcutil.ToPhysicalChannel(sh.SrcV)] = true
+			ts[funcutil.ToPhysicalChannel(sh.TgtV)] = true
+		}
+	}
+	for k := range ss {
+		srcs = append(srcs, k)
+	}
+	for k := range ts {
+		tgts = append(tgts, k)
+	}
+	sort.Strings(srcs)
+	sort.Strings(tgts)
+	return
 }
 
 func (sc *plScenario) retryTimes() int {
@@ -350,6 +371,7 @@ type plRun struct {
 	outs    map[string][]*api.ReplicateMsg // downstream pchannel -> packs in arrival order
 	chans   []string
 	events  []*api.ReplicateAPIEvent
+	mapSnaps       []map[string]string // channel assignment (mapping key -> image) at every scheduling point
 	dropSeen       chan struct{} // closed when the first drop request has been issued
 	dropSeenClosed bool
 	evAt    []int // number of packs delivered (per stream) when the event was observed -> snapshot
@@ -422,7 +444,7 @@ func plExecute(t *testing.T, sc *plScenario, ctl *sched.Ctl) *plRun {
 			drv, ok := r.inStart[schedGoid()]
 			r.hmu.Unlock()
 			if ok {
-				ctl.Point("drv:"+drv, "target-lookup", false)
+				r.pt("drv:"+drv, "target-lookup", false)
 			}
 		}
 	}
@@ -449,7 +471,27 @@ func plExecute(t *testing.T, sc *plScenario, ctl *sched.Ctl) *plRun {
 	}
 	ctx, cancel := context.WithCancel(context.Background())
 	r.cancel = cancel
-	cm, err := NewReplicateChannelManager(r.mq, &fakemq.Factory{MQ: r.mq}, r.target, config.ReaderConfig{
+	// The connectivity check of a new channel handler is a scheduling point ONLY when the caller does not hold the
+	// manager's channel lock (probed with TryLock): under the lock nobody else can reach the channel tables and a
+	// goroutine parked there would block the others on a mutex; outside the lock the check-then-act window of
+	// startReadChannel is open and has to be explored.
+	fac := &fakemq.Factory{MQ: r.mq}
+	fac.OnNewStream = func() {
+		if r.mgr == nil {
+			return
+		}
+		if r.mgr.channelLock.TryLock() {
+			r.mgr.channelLock.Unlock()
+			r.hmu.Lock()
+			who, ok := r.inStart[schedGoid()]
+			r.hmu.Unlock()
+			if !ok {
+				who = "other"
+			}
+			r.pt("conncheck:"+who, "unlocked", false)
+		}
+	}
+	cm, err := NewReplicateChannelManager(r.mq, fac, r.target, config.ReaderConfig{
 		MessageBufferSize: 256, TTInterval: 500, Retry: config.RetrySettings{RetryTimes: sc.retryTimes(), InitBackOff: 1, MaxBackOff: 1},
 		SourceChannelNum: sc.SrcN, TargetChannelNum: sc.TgtN, ReplicateID: r.replicateID,
 	}, mo, rm, nil, "milvus")
@@ -467,7 +509,7 @@ func plExecute(t *testing.T, sc *plScenario, ctl *sched.Ctl) *plRun {
 		if sc.Hooks != "all" && name != "pack.computed" && name != "barrier.signal" {
 			return
 		}
-		ctl.Point("h:"+key, name, false)
+		r.pt("h:"+key, name, false)
 	})
 	// event consumer: plays the writer - applies create events to the downstream catalog
 	go func() {
@@ -499,7 +541,7 @@ func plExecute(t *testing.T, sc *plScenario, ctl *sched.Ctl) *plRun {
 			if d.AfterDrop {
 				<-r.dropSeen
 			}
-			ctl.Point("drv:"+name, "go", true)
+			r.pt("drv:"+name, "go", true)
 			c := sc.Colls[d.Coll]
 			tctx := plTaskCtx(ctx, "task-"+c.Name)
 			var err error
@@ -531,7 +573,7 @@ func plExecute(t *testing.T, sc *plScenario, ctl *sched.Ctl) *plRun {
 			case "resume":
 				err = r.mgr.StopReadCollection(tctx, c.info())
 				if err == nil {
-					ctl.Point("drv:"+name, "resume-start", false)
+					r.pt("drv:"+name, "resume-start", false)
 					var seek []*msgpb.MsgPosition
 					for _, sh := range c.Shards {
 						pc := funcutil.ToPhysicalChannel(sh.SrcV)
@@ -548,7 +590,7 @@ func plExecute(t *testing.T, sc *plScenario, ctl *sched.Ctl) *plRun {
 					err = r.mgr.StartReadCollection(tctx, &model.DatabaseInfo{ID: 1, Name: c.DB}, info, seek, nil)
 				}
 				if err == nil && d.Part != "" {
-					ctl.Point("drv:"+name, "resume-addpart", false)
+					r.pt("drv:"+name, "resume-addpart", false)
 					err = r.mgr.AddPartition(tctx, &model.DatabaseInfo{ID: 1, Name: c.DB}, c.info(),
 						&pb.PartitionInfo{PartitionID: c.partID(d.Part), PartitionName: d.Part, CollectionId: c.ID, PartitionCreatedTimestamp: plTs(950, 0), State: d.PartState})
 				}
@@ -629,17 +671,43 @@ func (r *plRun) wrapHandlers() {
 			in := r.inAddPart[schedGoid()]
 			r.hmu.Unlock()
 			if in {
-				r.ctl.Point("addpart:"+key, "probe", false)
+				r.pt("addpart:"+key, "probe", false)
 			}
 			return orig(id)
 		}
 	}
 }
 
+// pt is every scheduling point of the pipeline harness: before parking, the manager's channel assignment (queried
+// through the public methods of util.ChannelMapping for every pair of channel names of the scenario) is recorded, so
+// that the C16 oracle sees every assignment that ever existed, not only the final table.
+func (r *plRun) pt(key, label string, free bool) {
+	if r.sc.WatchMapping && r.mgr != nil {
+		srcs, tgts := r.sc.physChannels()
+		snap := map[string]string{}
+		for _, s := range srcs {
+			for _, t := range tgts {
+				if r.mgr.channelMapping.CheckKeyExist(s, t) {
+					k, v := r.mgr.channelMapping.GetMapKey(s, t), r.mgr.channelMapping.GetMapValue(s, t)
+					if old, dup := snap[k]; dup && old != v {
+						snap[k] = old + "|" + v
+					} else {
+						snap[k] = v
+					}
+				}
+			}
+		}
+		r.hmu.Lock()
+		r.mapSnaps = append(r.mapSnaps, snap)
+		r.hmu.Unlock()
+	}
+	r.ctl.Point(key, label, free)
+}
+
 type plSched struct{ r *plRun }
 
 func (s plSched) Point(key, label string, free bool) {
-	s.r.ctl.Point(key, label, free)
+	s.r.pt(key, label, free)
 	if label == "deliver" {
 		s.r.hmu.Lock()
 		s.r.delivered[strings.TrimPrefix(key, "stream:")]++
